@@ -163,7 +163,13 @@ class CallMixin:
                 st2.env[p.arg] = self.ev(defaults[di], st2)
 
     def call_contract(self, qual, args, kwargs, node, st):
-        c = self.contracts[qual]
+        # the caller's contract may name the variant of a callee's contract to use at its call sites
+        variant = getattr(self.cur_contract, "callee_variants", {}).get(qual) if not self.spec else None
+        c = self.contracts[f"{qual}@{variant}" if variant else qual]
+        if self.binders and not self.spec:
+            # the result of a contract call is a fresh unknown; inside a comprehension's element expression it would have
+            # to be a different unknown per element - refused rather than modelled as one shared value
+            raise Unsupported(f"contract call {qual} inside a comprehension over a symbolic iterable")
         self.called_contracts.add(qual)
         pnames = list(c.params.keys())
         env = {}
@@ -178,6 +184,21 @@ class CallMixin:
                 raise Unsupported(f"contract call {qual}: missing argument {p}")
         for p, shp in c.params.items():
             env[p] = self.coerce(env[p], self.shape(shp))
+            if getattr(c, "nonnull_params", False) and isinstance(env[p], VOpt) and self.shape(shp)[0] != "opt" and not self.spec:
+                # opt-in of the callee's contract: an Optional value passed for a parameter declared non-Optional must be
+                # shown not to be None at the call site; the contract is then used with the payload
+                self.emit(f"call[{_short(node)}]->{qual}.arg-not-None.{p}", st, NOT(env[p].isnone), node, kind="call-pre", guard=list(self.guard))
+                env[p] = env[p].val
+        for g_, shp_ in getattr(c, "ghost_params", {}).items():
+            # ghost arguments are taken, by name, from the caller's ghost state (else its variables)
+            if g_ in st.ghost:
+                env[g_] = st.ghost[g_]
+            elif g_ in st.env:
+                env[g_] = st.env[g_]
+            else:
+                from .engine import ContractError
+                raise ContractError(f"contract call {qual}: ghost argument {g_} is not defined at the call site")
+            env[g_] = self.coerce(env[g_], self.shape(shp_))
         pre = st.copy()
         pre.env = env
         # preconditions become obligations
@@ -186,6 +207,13 @@ class CallMixin:
             self.emit(f"call[{_short(node)}]->{qual}.requires.{k}", st, goal, node, kind="call-pre", guard=list(self.guard))
         # frame: havoc what the callee may modify
         for m in getattr(c, "modifies", []):
+            if "@" in m:
+                # "Cls.f@expr": the callee may change field f of the one object denoted by expr, of no other object
+                fld, expr = m.split("@", 1)
+                cls_, f_ = fld.split(".")
+                tgt = self.spec_value(expr, pre)
+                self.heap_write(st, tgt, f_, self.fresh_value(self.field_shape(cls_, f_), uid(f"H.{cls_}.{f_}@call"), st))
+                continue
             self.havoc_heap(st, m)
         # exceptional exits
         for exc, cond in self.raises_of(c).items():
@@ -207,6 +235,13 @@ class CallMixin:
         post.env = dict(env)
         post.env["result"] = res
         post.old = pre
+        # ghost results: an existential postcondition "exists S. ensures(result, S)" in Skolem form - the callee's proof
+        # exhibits S (a ghost variable at its exits), the caller gets an unknown S (ghost name <function>_<S>)
+        for g, gshp in getattr(c, "ghost_returns", {}).items():
+            gv = self.fresh_value(self.shape(gshp), uid(f"ghost_{qual.split('.')[-1]}_{g}"), st)
+            self.assume_wf(gv, st)
+            post.ghost[g] = gv
+            st.ghost[f"{qual.split('.')[-1]}_{g}"] = gv
         for text in c.ensures:
             st.assume(to_z3(self.spec_eval(text, post, c)))
         st.alloc = post.alloc
@@ -242,6 +277,16 @@ class CallMixin:
                 raise Unsupported("record with __post_init__")
             return rec
         # heap object
+        if self.binders:
+            # inside the element expression of a comprehension over a symbolic iterable: block allocation
+            block = getattr(self, "alloc_block", None)
+            if block is None or block["count"] or self.resolve(f"{cls}.__post_init__") or self.spec:
+                raise Unsupported(f"constructor {cls} inside a comprehension (only one plain allocation per element is modelled)")
+            block["count"] = 1
+            for f, v in vals.items():
+                block["writes"].append((cls, f, v))
+            return VRef(cls, block["base"] + block["q"])
+        # heap object
         ref = VRef(cls, st.alloc)
         st.alloc = st.alloc + 1 if not is_leaf(st.alloc) else z3.simplify(st.alloc + 1)
         for f, v in vals.items():
@@ -257,6 +302,18 @@ class CallMixin:
             qual = f"{recv.cls}.{name}"
             if self.resolve(qual):
                 return self.call_named(qual, [recv] + args, kwargs, node, st)
+            if self.classes.get(recv.cls, {}).get("boxed_list"):
+                return self.boxed_list_method(recv, name, args, node, st)
+            ext = self.externals.get(qual)
+            if ext is not None:
+                # method of an object of a third-party class, given by an assumed contract of the sidecar (trusted base).
+                # Such a model may write the heap, which the syntactic loop-havoc analysis cannot see: refused in loops
+                # unless the model declares itself pure.
+                if not getattr(ext, "pure", False) and (self.enclosing_loop.get(id(getattr(self, "cur_stmt", None))) is not None
+                                                        or getattr(self, "binders", ())):
+                    raise Unsupported(f"heap-writing external method {qual} called inside a loop / comprehension")
+                self.used_externals.add(qual)
+                return ext(self, [recv] + args, kwargs, node, st)
             # attribute holding a callable? not supported; attribute value called
             val = self.attr_of(recv, name, node, st)
             return self.call_value(val, args, kwargs, node, st)
@@ -274,6 +331,13 @@ class CallMixin:
             obj = recv.obj
             if isinstance(obj, str):
                 return self.str_method(obj, name, args, node, st)
+            if isinstance(obj, enum.Enum) and getattr(self.realmod, type(obj).__name__, None) is type(obj):
+                # method of an Enum class defined in the module under verification, called on a concrete member
+                qual = f"{type(obj).__name__}.{name}"
+                if qual in self.funcs and self.resolve(qual):
+                    return self.call_named(qual, [recv] + args, kwargs, node, st)
+            if isinstance(obj, dict) and name == "get" and 1 <= len(args) <= 2 and not kwargs:
+                return self.conc_dict_get(obj, args[0], args[1] if len(args) > 1 else None, node)
             attr = getattr(obj, name)
             return self.call_value(self.from_py(attr) if not callable(attr) else VConc(attr), args, kwargs, node, st)
         if isinstance(recv, VList):
@@ -314,9 +378,58 @@ class CallMixin:
             val = sel(L.elems, to_z3(n1))
             self.assign_to(recv_node, VList(n1, L.elems, L.eshape), st, node)
             return val
+        if name == "index" and len(args) == 1 and L.elems is not None and not getattr(self, "binders", ()):
+            # L.index(x): the least position whose element equals x; ValueError when there is none
+            x = args[0]
+            n = to_z3(L.length)
+            r, q = z3.Int(uid("index")), z3.Int(uid("q"))
+            hit = lambda t: to_z3(self.eq(sel(L.elems, t), x))
+            found = z3.Exists([q], z3.And(q >= 0, q < n, hit(q)))
+            self.may_raise(NOT(found), "ValueError", node)
+            st.assume(z3.Implies(AND(*self.guard, found),
+                                 z3.And(r >= 0, r < n, hit(r), z3.ForAll([q], z3.Implies(z3.And(q >= 0, q < r), z3.Not(hit(q)))))))
+            return r
+        if name == "remove" and len(args) == 1 and L.elems is not None and not getattr(self, "binders", ()):
+            # L.remove(x): deletes the FIRST element equal to x (later elements move down by one); ValueError when none
+            x = args[0]
+            n = to_z3(L.length)
+            r, q = z3.Int(uid("remove")), z3.Int(uid("q"))
+            hit = lambda t: to_z3(self.eq(sel(L.elems, t), x))
+            found = z3.Exists([q], z3.And(q >= 0, q < n, hit(q)))
+            self.may_raise(NOT(found), "ValueError", node)
+            st.assume(z3.Implies(AND(*self.guard, found),
+                                 z3.And(r >= 0, r < n, hit(r), z3.ForAll([q], z3.Implies(z3.And(q >= 0, q < r), z3.Not(hit(q)))))))
+            new = fresh(("list", L.eshape), uid("removed"))
+            eqs = []
+            tzip(lambda a_, b_: (eqs.append(a_ == b_), a_)[1], sel(new.elems, q),
+                 ite_tree(q < r, sel(L.elems, q), sel(L.elems, q + 1)))
+            st.assume(z3.Implies(AND(*self.guard, found),
+                                 z3.And(to_z3(new.length) == n - 1, z3.ForAll([q], z3.Implies(z3.And(q >= 0, q < n - 1), z3.And(*eqs))))))
+            self.last_remove = r
+            self.assign_to(recv_node, new, st, node)
+            return None
         if name == "index" or name == "count":
             raise Unsupported("list." + name)
         raise Unsupported(f"list.{name}")
+
+    def boxed_list_method(self, ref, name, args, node, st):
+        """A Python list object with identity (aliasing matters): class entry {"boxed_list": "<field>"}; the list value
+        lives in that heap field of the reference, reads go through the heap, mutations write the field back."""
+        fld = self.classes[ref.cls]["boxed_list"]
+        L = self.heap_read(st, ref, fld)
+        if name == "__len__" and not args:
+            return L.length
+        if name == "__getitem__" and len(args) == 1:
+            return self.index(L, args[0], node, st)
+        if name == "__setitem__" and len(args) == 2:
+            i = self.norm_index(args[0], L.length, node)
+            self.heap_write(st, ref, fld, VList(L.length, sto(L.elems, [to_z3(i)], self.coerce(args[1], L.eshape)), L.eshape))
+            return None
+        if name == "__contains__" and len(args) == 1:
+            return self.contains(L, args[0], node)
+        if name.startswith("__"):
+            raise Unsupported(f"{name} of a list object")
+        return self.list_method(L, name, args, node, st, BoxTarget(ref, fld))
 
     def set_method(self, S, name, args, node, st, recv_node):
         if name == "add":
@@ -334,11 +447,28 @@ class CallMixin:
     def dict_method(self, D, name, args, node, st, recv_node):
         if name in ("items", "keys", "values"):
             return VDictView(D, name)
+        if name == "get" and isinstance(args[0], VOpt) and D.kshape[0] != "opt":
+            # Optional key against keys that are never None: None is absent (-> default), otherwise its payload
+            key, dflt = args[0], (args[1] if len(args) > 1 else None)
+            hit = AND(NOT(key.isnone), sel(D.dom, *key_terms(key.val)))
+            return self.merge(hit, sel(D.vals, *key_terms(key.val)), dflt)
         if name == "get":
             ks = key_terms(args[0])
             dflt = args[1] if len(args) > 1 else None
             return self.merge(sel(D.dom, *ks), sel(D.vals, *ks), dflt)
         raise Unsupported(f"dict.{name}")
+
+    def conc_dict_get(self, obj, key, default, node):
+        """d.get(key, default) on a constant dict of the real module (table lookup with a symbolic key)"""
+        if is_conc(key) and key is not None:
+            return self.from_py(obj[key]) if key in obj else default
+        res = default
+        for k, v in reversed(list(obj.items())):
+            val = self.from_py(v)
+            if isinstance(res, VList) and res.elems is None and isinstance(val, VList) and val.elems is not None:
+                res = VList(0, fresh(val.eshape, uid("empty"), (I,)), val.eshape)  # the literal [] as an empty list of that shape
+            res = self.merge(self.eq(self.from_py(k), key), val, res)
+        return res
 
     def str_method(self, s, name, args, node, st):
         if isinstance(s, str) and all(isinstance(a, (str, int)) for a in args):
@@ -369,6 +499,11 @@ class CallMixin:
             if s == "" and isinstance(it, VList):
                 return it if it.eshape == ("char",) else VJoined(it)
             raise Unsupported("join over a symbolic iterable")
+        ext = self.externals.get("str." + name)
+        if ext is not None:
+            # a str method given by an assumed contract of the sidecar (trusted base, listed like any other external)
+            self.used_externals.add("str." + name)
+            return ext(self, [s] + list(args), {}, node, st)
         raise Unsupported(f"str.{name} at line {getattr(node, 'lineno', '?')}")
 
     def all_chars_in(self, z, alphabet, nonempty=False):
@@ -420,7 +555,32 @@ class CallMixin:
             return max(n, 0) if isinstance(n, int) else z3.If(n > 0, n, z3.IntVal(0))
         if isinstance(v, VDict) and v.order is not None:
             return v.order.length
+        if isinstance(v, VSet) and not getattr(self, "binders", ()):
+            # cardinality of a (finite) set = length of a duplicate-free enumeration of exactly its members
+            return self.set_enumeration(v, st).length
         raise Unsupported(f"len of {type(v).__name__}")
+
+    def set_card(self, S):
+        """the cardinality of the set value S (one unknown per membership term: every duplicate-free enumeration of the
+        same set has this length)"""
+        cache = self.__dict__.setdefault("_card_cache", {})
+        key = S.mem.get_id()
+        if key not in cache:
+            cache[key] = (z3.Int(uid("card")), S.mem)
+        return cache[key][0]
+
+    def set_enumeration(self, S, st):
+        """a fresh duplicate-free list of exactly the members of S, in an arbitrary (unknown) order"""
+        seq = fresh(("list", S.kshape), uid("enum"))
+        n = to_z3(seq.length)
+        q, w = z3.Int(uid("q")), z3.Int(uid("w"))
+        kq, kw_ = key_terms(sel(seq.elems, q)), key_terms(sel(seq.elems, w))
+        st.assume(z3.And(n >= 0, n == self.set_card(S)))
+        st.assume(z3.ForAll([q], z3.Implies(z3.And(q >= 0, q < n), sel(S.mem, *kq))))
+        st.assume(z3.ForAll([q, w], z3.Implies(z3.And(q >= 0, q < w, w < n), z3.Or(*[a_ != b_ for a_, b_ in zip(kq, kw_)]))))
+        ks = [z3.Const(uid("k"), srt) for srt in key_sorts(S.kshape)]
+        st.assume(z3.ForAll(ks, z3.Implies(sel(S.mem, *ks), z3.Exists([q], z3.And(q >= 0, q < n, *[a_ == b_ for a_, b_ in zip(kq, ks)])))))
+        return seq
 
     def bi_range(self, args, kw, node, st):
         if len(args) == 1:
@@ -519,10 +679,23 @@ class CallMixin:
             return VList(self.bi_len([v], {}, node, st), z3.Lambda([q], q + lo), ("int",))
         if isinstance(v, VDictView) and v.which == "keys" and v.d.order is not None:
             return v.d.order
+        if isinstance(v, VDictView) and v.which == "values" and v.d.order is not None:
+            q = z3.Int(uid("q"))
+            at = sel(v.d.vals, *key_terms(sel(v.d.order.elems, q)))  # values in insertion order of their keys
+            return VList(v.d.order.length, tmap(lambda leaf: z3.Lambda([q], leaf), at), v.d.vshape)
+        if isinstance(v, VFilter) and isinstance(v.base, VList) and v.base.elems is not None:
+            preds = v.preds
+            return self.materialize_filter(v.base, lambda x: AND(*[self.truth(self.apply(f, [x], st, node)) for f in preds]),
+                                           lambda x: x, st, node)
         raise Unsupported(f"list() of {type(v).__name__}")
 
     def bi_tuple(self, args, kw, node, st):
         conc = self.conc_iter(args[0])
+        if conc is None and isinstance(args[0], VList) and args[0].elems is not None and getattr(self.sidecar, "TUPLE_AS_SEQUENCE", False):
+            # opt-in modelling decision of the sidecar (listed there): a variable-length tuple is the same immutable
+            # sequence value as the list it is built from (values are immutable in the engine); the sidecar vouches
+            # that the code under contract never observes the list/tuple type difference (==, +, isinstance)
+            return args[0]
         if conc is None:
             raise Unsupported("tuple() of a symbolic iterable")
         return VTuple(conc)
@@ -618,6 +791,12 @@ class CallMixin:
     def bi_sum(self, args, kw, node, st):
         conc = self.conc_iter(args[0])
         if conc is None:
+            v = args[0]
+            if isinstance(v, VList) and v.elems is not None and v.eshape in (("real",), ("int",)) and len(args) == 1:
+                # sum of a list of symbolic length: an uninterpreted function of (elements, length) - deterministic, and
+                # nothing else is assumed about it here (sidecars add what they need as listed lemmas)
+                srt = z3.RealSort() if v.eshape == ("real",) else z3.IntSort()
+                return self.ufun("sum." + v.eshape[0], z3.ArraySort(z3.IntSort(), srt), z3.IntSort(), srt)(v.elems, to_z3(v.length))
             raise Unsupported("sum over a symbolic iterable")
         res = args[1] if len(args) > 1 else 0
         for x in conc:
@@ -650,6 +829,11 @@ class CallMixin:
         raise Unsupported("float() of this value")
 
     def bi_sorted(self, args, kw, node, st):
+        ext = self.externals.get("builtins.sorted")
+        if ext is not None:
+            # sorted() given by an assumed contract of the sidecar (trusted base, listed like any other external)
+            self.used_externals.add("builtins.sorted")
+            return ext(self, args, kw, node, st)
         raise Unsupported("sorted")
 
     def bi_dict(self, args, kw, node, st):
@@ -669,6 +853,13 @@ class VDictView:
 
 class VEmptySet:
     pass
+
+
+class BoxTarget:
+    """assignment target standing for the content field of a list object (see boxed_list_method)"""
+
+    def __init__(self, ref, field):
+        self.ref, self.field = ref, field
 
 
 class VJoined:
